@@ -14,7 +14,7 @@ import (
 	"verif/harness/spec"
 )
 
-var c16Causes = []string{"disconnect", "abrupt", "keepalive", "protocol-error", "server-close"}
+var c16Causes = []string{"disconnect", "abrupt", "keepalive", "protocol-error", "server-close", "oversize"}
 var c16Conds = []string{"idle", "out-full", "in-full", "cross-blocked", "in-partial-large", "own-out-full"}
 
 // c16Cell runs one teardown scenario in a bubble.
@@ -262,6 +262,14 @@ func c16Cell(t *testing.T, cause, cond string, order int, will, clean bool, seed
 			case "protocol-error":
 				c.Send([]byte{0xf0, 0x00})
 				settle()
+			case "oversize":
+				// the beginning of a PUBLISH that is larger than the connection's ring (20000 bytes announced,
+				// 3000 sent): the broker cannot take it and has to end the connection by itself
+				b := append([]byte{0x30}, rc.AppendVarint(nil, 20000)...)
+				b = append(b, 0, 3, 'o', 'v', 's')
+				b = append(b, make([]byte, 3000)...)
+				c.Send(b)
+				settle()
 			}
 			settle()
 		}
@@ -298,17 +306,17 @@ func c16Cell(t *testing.T, cause, cond string, order int, will, clean bool, seed
 				if i > 0 {
 					how = "abrupt"
 				}
-				if cond == "in-full" && c == P && (how == "disconnect" || how == "protocol-error") {
+				if cond == "in-full" && c == P && (how == "disconnect" || how == "protocol-error" || how == "oversize") {
 					// P's inbound ring is full: it cannot get another packet through; it ends by closing
 					how = "abrupt"
 				}
-				if (cond == "cross-blocked" || cond == "in-full-pipelined") && (how == "disconnect" || how == "protocol-error") {
+				if (cond == "cross-blocked" || cond == "in-full-pipelined") && (how == "disconnect" || how == "protocol-error" || how == "oversize") {
 					how = "abrupt"
 				}
-				if cond == "out-full" && c == P && (how == "disconnect" || how == "protocol-error") {
+				if cond == "out-full" && c == P && (how == "disconnect" || how == "protocol-error" || how == "oversize") {
 					how = "abrupt" // P's processor is parked: it will not read another packet
 				}
-				if cond == "own-out-full" && c == X && (how == "disconnect" || how == "protocol-error") {
+				if cond == "own-out-full" && c == X && (how == "disconnect" || how == "protocol-error" || how == "oversize") {
 					how = "abrupt" // X's processor is parked: it will not read another packet
 				}
 				endOne(c, how)
